@@ -233,28 +233,34 @@ Proof.
 Qed.
 
 Definition default_ok_b (k : cls) (sp : attr_spec) : bool :=
-  is_none (assoc (a_name sp) (c_overrides k)) && nonref_b (a_default sp) &&
-  match a_factory sp with Some f => fac_flat_b f | None => true end.
+  match assoc (a_name sp) (c_overrides k) with
+  | Some v => nonref_b v
+  | None => nonref_b (a_default sp) && match a_factory sp with Some f => fac_flat_b f | None => true end
+  end.
 Lemma default_ok_b_sound k sp : default_ok_b k sp = true -> default_ok k sp.
 Proof.
-  unfold default_ok_b, default_ok. rewrite !andb_true_iff. intros [[H1 H2] H3].
-  split; [destruct (assoc _ _); auto; discriminate|]. split; [now apply nonref_b_sound|].
+  unfold default_ok_b, default_ok. destruct (assoc (a_name sp) (c_overrides k)); [apply nonref_b_sound|].
+  rewrite andb_true_iff. intros [H2 H3]. split; [now apply nonref_b_sound|].
   destruct (a_factory sp); auto. now apply fac_flat_b_sound.
 Qed.
 
 Definition ctor_class_b (ct : ctable) (c : cid) : bool :=
   match lookup_cls ct c with
   | Some k =>
-      flat_class_b k && (c_owner k =? c) && (match tl (c_mro k) with [] => true | _ => false end) &&
+      flat_class_b k &&
+      (match lookup_cls ct (c_owner k) with
+       | Some ko => match tl (c_mro ko) with [] => true | _ => false end
+       | None => false end) &&
       oqfn_b (c_post_init k) && forallb (fun sp => leaf_attr_b sp && default_ok_b k sp) (c_attrs k)
   | None => false
   end.
 Lemma ctor_class_b_sound ct c : ctor_class_b ct c = true -> exists k, ctor_class ct c k.
 Proof.
   unfold ctor_class_b, ctor_class. destruct (lookup_cls ct c) as [k|]; [|discriminate].
-  rewrite !andb_true_iff. intros [[[[H1 H2] H3] H4] H5]. exists k.
-  split; auto. split; [now apply flat_class_b_sound|]. split; [now apply Nat.eqb_eq|].
-  split; [destruct (tl (c_mro k)); auto; discriminate|].
+  rewrite !andb_true_iff. intros [[[H1 H3] H4] H5]. exists k.
+  split; auto. split; [now apply flat_class_b_sound|].
+  split; [destruct (lookup_cls ct (c_owner k)) as [ko|]; [|discriminate]; exists ko; split; auto;
+          destruct (tl (c_mro ko)); auto; discriminate|].
   split; [now apply oqfn_b_sound|].
   intros sp Hsp. rewrite forallb_forall in H5. specialize (H5 _ Hsp). apply andb_true_iff in H5.
   destruct H5. split; [now apply leaf_attr_b_sound|now apply default_ok_b_sound].
